@@ -25,6 +25,8 @@ add(Contract('engine.Variable.get_value', 'pure', [('self', 'Term:TVar')], ret='
 add(Contract('engine.Functor.get_value', 'pure', [('self', 'Term:TFun')], ret='Term',
              value='(resolve {self} {S})'))
 
+add(Contract('engine.Atom.name', 'pure', [('self', 'Term:TAtom')], ret='Str', value='(aname {self})'))
+
 # ---- unification (C02) and finalisation (C03) --------------------------------------------------
 add(Contract('engine.unify', 'iterfn', [('term1', 'Term'), ('term2', 'Term')], ret='Iter',
              spec='(su {term1} {term2} {S0})'))
